@@ -32,7 +32,7 @@ fn payload(rng: &mut Rng) -> (Vec<u8>, &'static str) {
     }
 }
 
-fn gzip(data: &[u8], level: u32, rng: &mut Rng) -> Vec<u8> {
+pub fn gzip(data: &[u8], level: u32, rng: &mut Rng) -> Vec<u8> {
     let mut b = flate2::GzBuilder::new();
     if rng.chance(1, 3) {
         b = b.filename("name.txt");
@@ -48,7 +48,7 @@ fn gzip(data: &[u8], level: u32, rng: &mut Rng) -> Vec<u8> {
     e.finish().unwrap()
 }
 
-fn deflate(data: &[u8], level: u32) -> Vec<u8> {
+pub fn deflate(data: &[u8], level: u32) -> Vec<u8> {
     let mut e = flate2::write::DeflateEncoder::new(Vec::new(), Compression::new(level));
     e.write_all(data).unwrap();
     e.finish().unwrap()
